@@ -4,6 +4,7 @@ from the Go AST on every run (`Generated/Facts.lean`).  Core Lean only (linked i
 -/
 import Gotlcp.Model.Parsers
 import Gotlcp.Model.ParsersLoop
+import Gotlcp.Model.ParsersLoopD
 import Gotlcp.Generated.Facts
 
 namespace Gotlcp.Model.Parsers
@@ -32,5 +33,12 @@ def limitsT : ParsersLoop.Limits :=
   { hdr := Facts.tlcp.recordHeaderLen, maxCiphertext := Facts.tlcp.maxCiphertext,
     maxPlaintext := Facts.tlcp.maxPlaintext, maxHandshake := Facts.tlcp.maxHandshake,
     maxUseless := Facts.tlcp.maxUselessRecords, refusePostHs := Facts.tlcp.hsPostHandshakeRefused }
+
+/-- limits of the datagram stack as they are in the working tree -/
+def limitsD : ParsersLoopD.LimitsD :=
+  { hdr := Facts.dtlcp.recordHeaderLen, hsHdr := Facts.dtlcp.dtlcpHeaderLen, maxCiphertext := Facts.dtlcp.maxCiphertext,
+    maxPlaintext := Facts.dtlcp.maxPlaintext, maxHandshake := Facts.dtlcp.maxHandshake,
+    maxUseless := Facts.dtlcp.maxUselessRecords, maxFragments := Facts.dtlcp.maxHandshakeFragments,
+    refusePostHs := Facts.dtlcp.hsPostHandshakeRefused }
 
 end Gotlcp.Model.Parsers
